@@ -40,6 +40,11 @@ func checkC07(r *Report, p *Program) {
 	conditionTables(r, p, "R07.13")
 	claimsTables(r, p, "R07.14")
 	lastAppliedIsHookAnswer(r, p, "R07.15")
+	copyIfFound(r, p, "R07.16")
+	anyRollingTable(r, p, "R07.17")
+	containerBuilders(r, p, "R07.18")
+	// conditions are parsed field by field only where the field has the expected type (shared with C13)
+	commaOkValuesUsedWhenOk(r, p, "R07.19", 20)
 }
 
 // r07_9: which fields are revisioned. The default (all of spec) applies whenever the
